@@ -51,7 +51,7 @@ type item struct {
 
 type node struct {
 	Kind  string `json:"kind"` // call | callcode | delegate | static | create | create2
-	End   string `json:"end"`  // ok | revert | fault | codestore | write
+	End   string `json:"end"`  // ok | revert | fault | codestore | oversize | write
 	Items []item `json:"items"`
 	id    int    // deployed contract id (call kinds)
 	fault int
@@ -224,6 +224,14 @@ func (c *compiler) body(n *node, isCreate bool) []byte {
 			a.PushInt(1).Op(eu.PUSH0, eu.RETURN)
 		} else {
 			a.Op(eu.STOP)
+		}
+	case "oversize":
+		// a creation that returns more code than MaxCodeSize (245760 bytes) fails, whatever gas is left
+		if isCreate {
+			*c.faultNo++
+			a.PushInt(uint64([]int{245761, 300000}[*c.faultNo%2])).Op(eu.PUSH0, eu.RETURN)
+		} else {
+			a.Op(eu.INVALID)
 		}
 	case "codestore":
 		if isCreate {
@@ -448,6 +456,9 @@ func (o *observer) StepDone(s *vm.VerifStep, res []byte, err error) {
 			cerr = o.lastExit[s.Depth+1]
 			if cerr == "" {
 				cerr = "none"
+				if (op == eu.CREATE || op == eu.CREATE2) && !ok && o.LastRetLen[s.Depth+1] > 245760 {
+					cerr = "oversize" // the init code ended normally but returned more than MaxCodeSize
+				}
 			}
 		}
 		o.tr.Emit(map[string]interface{}{"event": "After", "depth": s.Depth, "op": int(op), "self": o.w.id(s.Address), "ok": ok,
@@ -643,7 +654,7 @@ func randomNode(r *rand.Rand, depth int, budget *int, static bool) *node {
 				ch := randomNode(r, depth+1, budget, static || k == "static")
 				ch.Kind = k
 				if (k == "create" || k == "create2") && r.Intn(4) == 0 {
-					ch.End = "codestore"
+					ch.End = []string{"codestore", "oversize"}[r.Intn(2)]
 				}
 				n.Items = append(n.Items, item{Node: ch, V: r.Intn(2)})
 				if static && k == "static" && r.Intn(2) == 0 {
